@@ -178,12 +178,14 @@ def run(ctx):
 
 
 def replay(ctx, path):
-    vh = vlib.build_harness(ctx)
-    out = os.path.join(ctx.sub('replay'), 'trace.ndjson')
-    # schedule-dependent defects need not show on every run: repeat
-    run_conc(ctx, vh, out, n=25, replay=path)
-    ut = os.path.join(ctx.sub('replay'), 'unique.ndjson')
+    vh = vlib.build_harness(ctx, race=True)
+    rd = ctx.sub('replay')
+    out = os.path.join(rd, 'trace.ndjson')
+    # schedule-dependent defects need not show on every run: repeat, under the race detector
+    run_conc(ctx, vh, out, n=25, replay=path, racelog=os.path.join(rd, 'race'))
+    ut = os.path.join(rd, 'unique.ndjson')
     dedupe(ctx, [out], ut)
+    add_race_events(rd, ut)
     before = len(ctx.violations)
     judge(ctx, [ut], label='replay')
     if len(ctx.violations) > before:
